@@ -33,6 +33,33 @@ theorem Reach.of_static {g g' : Graph V} (hs : SameStatic g' g) {i k : Nat} (h :
     obtain ⟨t, ht, -, -, -, hdeps⟩ := StaticEq.struct_left h1
     exact .step ht (hdeps ▸ hd) ih
 
+/-- the executable cone of the driver's oracle is the cone of the theorems -/
+theorem inCone_iff {g : Graph V} (hwf : WF g) (f j k : Nat) (hf : j < f) : inCone f g j k = true ↔ Reach g j k := by
+  induction f generalizing j with
+  | zero => omega
+  | succ f ih =>
+    simp only [inCone, Bool.or_eq_true, beq_iff_eq]
+    constructor
+    · rintro (h | h)
+      · subst h; exact .refl _
+      · cases hs : g j with
+        | param x v => rw [hs] at h; cases h
+        | struct s =>
+          rw [hs] at h
+          simp only [List.any_eq_true] at h
+          obtain ⟨d, hd, hdk⟩ := h
+          have := hwf j s hs d hd
+          exact .step hs hd ((ih d (by omega)).1 hdk)
+    · intro h
+      cases h with
+      | refl => exact .inl rfl
+      | @step _ s d _ hs hd hr =>
+        right
+        rw [hs]
+        simp only [List.any_eq_true]
+        have := hwf j s hs d hd
+        exact ⟨d, hd, (ih d (by omega)).2 hr⟩
+
 /-- `Outdated` looks only at the cone (fuel level, no guard needed) -/
 theorem outdated_congr_cone (f : Nat) (g g' : Graph V) (k : Nat)
     (h : ∀ j, Reach g k j → g' j = g j) : outdated f g' k = outdated f g k := by
